@@ -277,6 +277,8 @@ def fixed_configs(r):
         {"threads": 2, "fpg": 1, "prior": "shorter"},
         {"threads": 3, "fpg": 2, "prior": "longer", "inplace": True},
         {"threads": 4, "fpg": 7, "exp": "1,4096,1,1", "prior": "identical", "inplace": True},
+        {"threads": 4, "prior": "longer", "mode": "default"},
+        {"threads": 1, "prior": "longer", "mode": "default"},
         {"threads": 8, "sched": s(), "prior": "absent"},
         {"threads": 16, "sched_layout": s(), "exp": "8,65536,3,2", "prior": "longer"},
         {"threads": 16, "prior": "shorter", "inplace": True},
@@ -285,11 +287,14 @@ def fixed_configs(r):
         {"threads": 7, "sched": s(), "prior": "absent"},
         {"threads": 16, "fpg": 2, "sched": s(), "prior": "longer", "inplace": True},
         {"threads": 2, "exp": "1,_,50,1", "prior": "absent"},
+        {"threads": 6, "prior": "shorter", "mode": "default"},
     ]
 
 
 def random_config(r):
     c = {"threads": r.range(1, 16), "prior": r.choice(["absent", "shorter", "longer", "identical"]), "inplace": r.chance(1, 2)}
+    if r.chance(1, 3):
+        c["mode"] = "default"
     if r.chance(1, 2):
         c["fpg"] = r.choice([1, 2, 7, 3, 64])
     if r.chance(1, 2):
@@ -370,7 +375,8 @@ def link(d, base_args, c, out, ref_out, r):
     args = [f"--threads={c['threads']}"]
     if "exp" in c:
         args.append(f"--wild-experiments={c['exp']}")
-    args.append("--update-in-place" if c.get("inplace") else "--no-update-in-place")
+    if c.get("mode") != "default":      # "default": neither flag, wild picks the write mode itself (in place for existing executables)
+        args.append("--update-in-place" if c.get("inplace") else "--no-update-in-place")
     e = {k: v for k, v in os.environ.items() if k not in WILD_ENV_BASE}
     e.update(env)
     import subprocess
@@ -381,7 +387,7 @@ def link(d, base_args, c, out, ref_out, r):
 def run(ctx):
     r = ctx.rng
     n_prog = 9 if ctx.quick else 60
-    n_cfg = 12 if ctx.quick else 60
+    n_cfg = 14 if ctx.quick else 60
     configs0 = fixed_configs(r)
     linked = 0
     for pi in range(n_prog):
